@@ -1,0 +1,75 @@
+//go:build verif
+
+package compiler
+
+import (
+	"io/fs"
+
+	"github.com/open2b/scriggo/ast"
+)
+
+// Verification hooks (add-only, build tag "verif"): parser entry points for
+// the syntax tree properties (clone, walk, print and parse).
+
+// VerifParseSource parses a program source (or a script-like source without
+// package clause if noPackage is true) and returns its tree.
+func VerifParseSource(src []byte, noPackage bool) (*ast.Tree, error) {
+	return parseSource(src, noPackage)
+}
+
+// VerifParseTemplateSource parses a template source without expanding it.
+func VerifParseTemplateSource(src []byte, format ast.Format, imported, noParseShow bool) (*ast.Tree, []ast.Node, error) {
+	return ParseTemplateSource(src, format, imported, noParseShow)
+}
+
+// VerifParseProgram parses and expands a program read from fsys.
+func VerifParseProgram(fsys fs.FS) (*ast.Tree, error) {
+	return ParseProgram(fsys)
+}
+
+// VerifParseTemplate parses and expands the named template file of fsys.
+func VerifParseTemplate(fsys fs.FS, name string) (*ast.Tree, error) {
+	return ParseTemplate(fsys, name, false, nil)
+}
+
+// VerifParseExpr parses src as a single expression with the template
+// expression syntax (as between {{ and }}) if template is true, otherwise
+// with the program syntax. It returns nil if src is not exactly one
+// expression.
+func VerifParseExpr(src []byte, template bool) (expr ast.Expression, err error) {
+	var lex *lexer
+	if template {
+		s := make([]byte, 0, len(src)+6)
+		s = append(append(append(s, "{{ "...), src...), " }}"...)
+		lex = scanTemplate(s, ast.FormatText, false)
+	} else {
+		lex = scanProgram(src)
+	}
+	p := &parsing{lex: lex}
+	defer func() {
+		lex.Stop()
+		if r := recover(); r != nil {
+			if e, ok := r.(*SyntaxError); ok {
+				expr, err = nil, e
+				return
+			}
+			panic(r)
+		}
+	}()
+	tok := p.next()
+	if template {
+		if tok.typ != tokenLeftBraces {
+			return nil, nil
+		}
+		tok = p.next()
+	}
+	expr, tok = p.parseExpr(tok, false, false, false, false)
+	if template {
+		if tok.typ != tokenRightBraces {
+			return nil, nil
+		}
+	} else if tok.typ != tokenEOF && tok.typ != tokenSemicolon {
+		return nil, nil
+	}
+	return expr, nil
+}
